@@ -32,7 +32,6 @@ NOT_APPLICABLE = {
     'C02': 'schedule-only property of three unsynchronised steps (id assignment, commit, broadcast) in concurrent writers; neither '
            'Verus (without rewriting the code around its permission types) nor Kani (no threads) can express the quantifier; the '
            'one sequential piece (Excluded(last_id) bound) is decided under C01',
-    'C17': 'not built yet (planned: replay folds)',
     'C16': 'every decidable clause compares topics against format!() output (opaque to Verus, unaffordable in CBMC) and the rest '
            'is a spawn/subscribe race between tokio tasks',
     'C18': 'generator lifecycle is Nushell-engine evaluation on OS threads plus block_on; no xs function on the path that a '
@@ -292,3 +291,19 @@ prop('C15',
      extra_assumptions=['serde_json::Value / Map model (object = map, insert overwrites); buffered metas are absent or objects (nu Record)'],
      explanation='The loop is extracted verbatim and verified with a loop invariant over the ghost list of appended frames.',
      not_decided='return-frame topic (format!), evaluation failure path, script shapes, CAS content')
+
+prop('C17',
+     level='proof',
+     claim='Verus, unbounded, on the real start-up folds: handlers::serve keeps, per name, the latest .register of the history up to the '
+           'threshold that was not cancelled by an .unregister / .unregistered carrying its handler id (split at the LAST dot of '
+           'the topic, handler id = the registering frame id); generators::serve keeps, per name, the last of .spawn / .spawn.error. '
+           'The clause "independently of what exists under the same name in other contexts" is stated as a separate obligation and '
+           'fails on this tree (known finding: maps keyed by name only); with all frames in one context the two folds agree (lemma).',
+     technique=TECH,
+     units=['verus:restart_ops'],
+     obligations=['restart.handlers.*', 'restart.generators.*', 'restart_ops.handlers_replay_fold.body', 'restart_ops.generators_compaction_fold.body'],
+     trusted=['extraction', 'sequential', 'scru128'],
+     extra_assumptions=['std HashMap<String,_> (key model, borrowed &str keys), String extensionality, rsplit_once / strip_suffix / ends_with as text '
+                        'functions, serde_json::Value accessors -- all assumed; `match suffix {"..." => ..}` is rewritten to the equivalent if/else chain'],
+     explanation='The two replay loops are extracted verbatim (await stripped) and verified against fold functions written from the property.',
+     not_decided='starting the retained handlers in id order (sort_by_key), commands::serve, crash restart, non-re-execution of historical triggers')
